@@ -199,7 +199,14 @@ def check_len_index(ds, m, tag, require_indexable=None):
     if not reported or not m.sized or m.unordered:
         return False
     accept_taint = m.int_taint
-    for i in range(-n - 2, n + 2):
+    if n <= 1000:
+        sweep = range(-n - 2, n + 2)
+    else:  # long datasets: both edges, the neighbourhood of powers of two and a stride through the middle
+        pts = set(range(-n - 2, -n + 40)) | set(range(n - 40, n + 2)) | set(range(-40, 40)) | set(range(0, n, 997))
+        for e in range(7, 18):
+            pts |= {2 ** e - 1, 2 ** e, 2 ** e + 1, -(2 ** e), -(2 ** e) - 1}
+        sweep = sorted(p for p in pts if -n - 2 <= p < n + 2)
+    for i in sweep:
         inside = -n <= i < n
         for T in (INT_TYPES + SMALL_TYPES + UINT_TYPES if i >= 0 else INT_TYPES + SMALL_TYPES):
             if T not in (int,) and not (np.iinfo(T).min <= i <= np.iinfo(T).max):
